@@ -30,13 +30,14 @@ type World struct {
 	Preds     map[string]*PredDef  // pkgpath + "::" + name
 	Frames    []*FrameDecl
 	TypeInvs  map[string]*TypeInv // qualified type name -> invariant
+	Ghosts    map[string]*GhostField // pkgpath.Type.$name
 	SpecFiles []*SpecFile
 	Overlay   map[string][]byte
 	fileCache map[string][]byte
 }
 
 func loadWorld(repo string, patterns []string, overlay map[string][]byte) (*World, error) {
-	w := &World{RepoDir: repo, Pkgs: map[string]*PkgInfo{}, Contracts: map[string]*Contract{}, Preds: map[string]*PredDef{}, TypeInvs: map[string]*TypeInv{}, Overlay: overlay}
+	w := &World{RepoDir: repo, Pkgs: map[string]*PkgInfo{}, Contracts: map[string]*Contract{}, Preds: map[string]*PredDef{}, TypeInvs: map[string]*TypeInv{}, Ghosts: map[string]*GhostField{}, Overlay: overlay}
 	cfg := &packages.Config{
 		Mode: packages.NeedName | packages.NeedSyntax | packages.NeedTypes | packages.NeedTypesInfo | packages.NeedFiles |
 			packages.NeedImports | packages.NeedDeps | packages.NeedCompiledGoFiles,
@@ -161,6 +162,8 @@ func (w *World) loadSpecs(depsDir string) error {
 			if isDep {
 				c.Trusted = true
 			}
+			// no modifies clause means `modifies nothing` (checked for functions of the repository)
+			c.HasMod = true
 			k := c.Pkg + "::" + c.Key
 			if _, dup := w.Contracts[k]; dup {
 				return fmt.Errorf("%s:%d: duplicate contract for %s", c.File, c.Line, k)
@@ -171,6 +174,9 @@ func (w *World) loadSpecs(depsDir string) error {
 			w.Preds[p.Pkg+"::"+p.Name] = p
 		}
 		w.Frames = append(w.Frames, sf.Frames...)
+		for _, g := range sf.Ghosts {
+			w.Ghosts[g.Pkg+"."+g.Type+"."+g.Name] = g
+		}
 		for _, ti := range sf.TypeInvs {
 			name := ti.Type
 			if !strings.Contains(name, "/") {
